@@ -51,7 +51,7 @@ theorem counts_exec (c : Cfg) (s : St) (op : Op) (id : Nat) :
     (exec c s op).st.ctor id = s.ctor id + ctorsOf id (exec c s op).evs ∧
     (exec c s op).st.dtor id = s.dtor id + dtorsOf id (exec c s op).evs := by
   cases op <;>
-  simp only [exec, execStore, inval, St.put, St.die, St.dieO, St.own, St.ownO, St.born, St.leak,
+  simp only [exec, execStore, inval, St.put, St.die, St.dieO, St.own, St.ownO, St.born, St.leak, St.tick,
     Slot.dead, Slot.emptyW] <;>
   (repeat' split) <;>
   (try simp only [*]) <;>
